@@ -1,7 +1,7 @@
 (* C17 property theorems.  Statements + exact + Print Assumptions only. *)
 From ZV.Common Require Import Base.
 From ZV.C17 Require Import Spec Model ProofsSpec ProofsPage ProofsLinks ProofsLru ProofsRefine ProofsShard ProofsStamp ProofsStale ProofsTop.
-From ZV.C17 Require Import ModelInval ProofsInval ProofsFresh ModelBlob ProofsBlob ModelRoute ProofsRoute.
+From ZV.C17 Require Import ModelInval ProofsInval ProofsFresh ModelBlob ProofsBlob ModelRoute ProofsRoute ProofsCap.
 Open Scope N_scope.
 
 (* ---- S: the recency-list LRU map never exceeds its capacity, for every history ---- *)
@@ -547,3 +547,21 @@ Check hash_routing_is_routed : forall ops c n,
   shard (fst (c_run c n ops)) = fst (g_run (shard c) n (map (fun o => (match o with Get k | Put k _ | Remove k | Contains k => sel c k | _ => 0 end, o)) ops)) /\
   snd (c_run c n ops) = snd (g_run (shard c) n (map (fun o => (match o with Get k | Put k _ | Remove k | Contains k => sel c k | _ => 0 end, o)) ops)).
 Print Assumptions hash_routing_is_routed.
+
+(* ====================================================================================================== *)
+(* extension: the page cache stays within its capacity                                                    *)
+(* ====================================================================================================== *)
+(* ---- after every history of reads / prefetches / invalidations / rewrites / close_file the page table holds at most
+        capacity / PAGE_SIZE pages -- and one page when that quotient is 0 (the eviction runs before the insertion,
+        so a cache configured below one page still keeps the page it has just loaded) ---- *)
+Theorem page_cache_size_le_cap : forall ps capbytes fs ops,
+  nlen (inner (fst (x_run (pc_new ps capbytes fs) ops))) <= N.max 1 (capbytes / ps).
+Proof. exact page_cache_size_proof. Qed.
+Check page_cache_size_le_cap : forall ps capbytes fs ops,
+  nlen (inner (fst (x_run (pc_new ps capbytes fs) ops))) <= N.max 1 (capbytes / ps).
+Print Assumptions page_cache_size_le_cap.
+Example page_cache_size_nontrivial :
+  let fs := fun g => if g =? 1 then Some [1; 2; 3; 4; 5; 6; 7; 8; 9; 10; 11; 12] else None in
+  nlen (inner (fst (x_run (pc_new 4 8 fs) [XRead 1 0 12; XInvRange 1 3 2; XRead 1 0 12]))) = 2 /\
+  nlen (inner (fst (x_run (pc_new 4 3 fs) [XRead 1 0 12]))) = 1.
+Proof. vm_compute. split; reflexivity. Qed.
